@@ -325,6 +325,12 @@ func (q *TaskQueue) addAfter(id string, newTask task.Task) {
 		}
 	}
 
+	// No task with such id: leave the queue unmodified instead of storing
+	// a slice with an empty (nil) slot.
+	if !idFound {
+		return
+	}
+
 	q.items = newItems
 }
 
@@ -357,6 +363,12 @@ func (q *TaskQueue) addBefore(id string, newTask task.Task) {
 			// when id is found, copy other taskы to i+1 position
 			newItems[i+1] = t
 		}
+	}
+
+	// No task with such id: leave the queue unmodified instead of storing
+	// a slice with an empty (nil) slot.
+	if !idFound {
+		return
 	}
 
 	q.items = newItems
